@@ -95,3 +95,12 @@ CLAIMS["C03"] = ("proof",
     _TB + "Non-Gaussian families (Kgate, Vgate, CKgate) are one-parameter groups by their documented definition exp(i p0 G) (not "
     "checked); Decomposition.merge (matrix products) not under contract.",
     "deductive verification: VCs from the real source + z3/cvc5 (NRA with transcendental abstraction)", "DESIGN.md 5/C03")
+CLAIMS["C15"] = ("proof",
+    "With hbar SYMBOLIC (> 0), every front-end conversion between hbar-dependent user units and the hbar-free backend API is "
+    "proved to obey its scaling law by executing the real code against a recording stub backend: Xgate/Zgate (decompositions "
+    "against the documented action), MeasureHomodyne._apply (select handed over hbar-free, outcome ~ sqrt(hbar)), "
+    "MSgate._apply (ancilla outcome ~ sqrt(hbar); found wrong and repaired, F28), Vgate._apply, Gaussian._apply, "
+    "BaseGaussianState.__init__ (means ~ sqrt(hbar), covariance ~ hbar, amplitudes hbar-free). A bounded end-to-end stand-in "
+    "(same circuits at several hbar on three backends) is reported separately.",
+    _TB + "thewalrus-computed Fock probabilities and the simulators' internal hbar=2 constants are not under contract.",
+    "deductive verification: VCs from the real source + z3/cvc5 (NRA with sqrt abstraction)", "DESIGN.md 5/C15")
